@@ -57,6 +57,9 @@ func (i *Interp) findIntrinsic(fn *ssa.Function) intrinsic {
 	if f := i.compressIntrinsic(fn, name); f != nil {
 		return f
 	}
+	if f := i.protoIntrinsic(fn, name); f != nil {
+		return f
+	}
 	if f := i.nativeBridge(fn, name); f != nil {
 		return f
 	}
